@@ -19,7 +19,8 @@ THEOREMS = ['Fsic.C11.' + n for n in [
     'class_invisible_to_instance_history', 'ops_local', 'trace_t_local', 'interleaved_disjoint',
     'interleaved_independent', 'interleaved_independent_ops', 'copy_resync_independent',
     'assignFrom_inplace_copies_values', 'failed_copy_is_identity', 'deepcopy_uncopyable', 'worldOK_after_copy',
-    'successive_copies_disjoint', 'fresh_check_is_not_endogenous', 'copy_entries_separate']]
+    'successive_copies_disjoint', 'fresh_check_is_not_endogenous', 'copy_entry_aliasing_preserved',
+    'copy_entries_separate_linker', 'copy_succeeds', 'ranked_acyclic']]
 RULE = ('programs over real fsic objects: a class (VectorContainer; parser-built / hand-written / default-inheriting '
         'BaseModel subclasses; BaseLinker subclasses with two nested submodels; with and without AliasMixin / '
         'TracerMixin, TRACE_VARIABLES None or a class-level list), two sibling instances over range / list spans, a '
